@@ -61,6 +61,17 @@ CLAIMS = {
         "note": "Trusted: that the documented closed forms are the minimisers (convex analysis), numpy sort/cumsum/eigh/clip. E3 equality is sound but incomplete: an algebraically "
                 "different yet equivalent rewrite outside the axioms of DESIGN 2.3 would be reported.",
     },
+    "C13": {
+        "engine": "E3 value numbering + E2 alias analysis",
+        "category": "other",
+        "technique": "static analysis: path-sensitive value numbering of GradientMethod/PrimalDualHybridGradient._update and __init__ into canonical terms compared with the published iterations; mirror check of the two acceleration branches by symbol substitution; alias analysis for in-place discipline",
+        "text": "PARTIAL. Decides the structural clause only: on every path one update of GradientMethod equals the (accelerated) proximal-gradient step and one update of the primal-dual "
+                "method equals the Chambolle-Pock step with both strong-convexity accelerations (mirror images of each other), constructor state is as documented, and the caller's "
+                "x / u are updated in place only. This is a necessary condition of the convergence statements (a wrong momentum, extrapolation or step rescaling breaks them) and holds for all inputs.",
+        "design_ref": "DESIGN.md section 4 C13",
+        "note": "NOT decided: every rate, monotonicity and convergence statement of the property (they quantify over runtime histories; trusted theory given the update forms). "
+                "E3 equality is sound and incomplete (an equivalent but differently factored iteration would be reported).",
+    },
     "C14": {
         "engine": "E3 value numbering + E4 symbolic Linop algebra",
         "category": "other",
